@@ -474,7 +474,8 @@ MORE = {
            'changes kind, pack as DB.pack asks for it; a pack must leave '
            'every current state, a failing pack everything; a blob-capable '
            'base under a fresh implicit / pushed layer with every pair of '
-           'blob operations first.',
+           'blob operations first, and under explicit changes storages that '
+           'cannot hold blobs (reads of the base\'s blobs).',
     'C17': 'A MappingStorage as the source of copyTransactionsFrom; a '
            'source transaction the destination refuses (description too '
            'long): what was copied before stays, the destination is left '
